@@ -64,3 +64,159 @@ Theorem C18_conv_finite : forall x : binary64,
 Proof. exact f64_to_f32_finite. Qed.
 
 Print Assumptions C18_conv_finite.
+
+(* ================= the ziggurat sampler behind the seeded helpers (Model/Ziggurat.v) ================= *)
+From MiniMcmc Require Import Model.Ziggurat Proofs.Ziggurat.
+From Coq Require Import QArith Qabs.
+Close Scope Q_scope.
+
+(* the four generated tables have 257 entries *)
+Theorem C18_zig_tables_length :
+  length zig_norm_x = 257%nat /\ length zig_norm_f = 257%nat /\
+  length zig_exp_x = 257%nat /\ length zig_exp_f = 257%nat.
+Proof. exact zig_tables_length. Qed.
+Print Assumptions C18_zig_tables_length.
+
+(* x[0] > x[1] = R > ... > x[256] = +0, every entry finite and nonnegative *)
+Theorem C18_zig_norm_x_decreasing :
+  (forall i : N, (i < 256)%N -> blt (znth zig_norm_x (i + 1)) (znth zig_norm_x i) = true) /\
+  (forall i : N, (i <= 256)%N ->
+     Binary.is_finite 53 1024 (znth zig_norm_x i) = true /\ Binary.Bsign 53 1024 (znth zig_norm_x i) = false) /\
+  znth zig_norm_x 256 = Binary.B754_zero 53 1024 false /\
+  znth zig_norm_x 1 = zb zig_norm_r.
+Proof. exact zig_norm_x_decreasing. Qed.
+Print Assumptions C18_zig_norm_x_decreasing.
+
+(* f[0] < f[1] < ... < f[256] = 1.0, every entry finite and nonnegative *)
+Theorem C18_zig_norm_f_increasing :
+  (forall i : N, (i < 256)%N -> blt (znth zig_norm_f i) (znth zig_norm_f (i + 1)) = true) /\
+  (forall i : N, (i <= 256)%N ->
+     Binary.is_finite 53 1024 (znth zig_norm_f i) = true /\ Binary.Bsign 53 1024 (znth zig_norm_f i) = false) /\
+  znth zig_norm_f 256 = f_one.
+Proof. exact zig_norm_f_increasing. Qed.
+Print Assumptions C18_zig_norm_f_increasing.
+
+(* qof reads a finite binary64 as the rational it denotes *)
+Theorem C18_qof_B2R : forall x : binary64,
+  Binary.is_finite 53 1024 x = true -> Q2R (qof x) = Binary.B2R 53 1024 x.
+Proof. exact qof_B2R. Qed.
+Print Assumptions C18_qof_B2R.
+
+(* equal areas, in exact rational arithmetic on the table values, V = x[0] * f[1]:
+   layers 1..254 have area V up to 2^-52; the top layer 255 (x[255] * (1 - f[255])) only up to 2^-37, and NOT up
+   to 2^-38 *)
+Theorem C18_zig_norm_equal_area :
+  (forall i : N, (1 <= i <= 254)%N ->
+     (Qabs (qof (znth zig_norm_x i) * (qof (znth zig_norm_f (i + 1)) - qof (znth zig_norm_f i))
+            - qof (znth zig_norm_x 0) * qof (znth zig_norm_f 1)) <= 1 # 2 ^ 52)%Q) /\
+  (forall i : N, (1 <= i <= 255)%N ->
+     (Qabs (qof (znth zig_norm_x i) * (qof (znth zig_norm_f (i + 1)) - qof (znth zig_norm_f i))
+            - qof (znth zig_norm_x 0) * qof (znth zig_norm_f 1)) <= 1 # 2 ^ 37)%Q) /\
+  ~ (Qabs (qof (znth zig_norm_x 255) * (qof (znth zig_norm_f (255 + 1)) - qof (znth zig_norm_f 255))
+            - qof (znth zig_norm_x 0) * qof (znth zig_norm_f 1)) <= 1 # 2 ^ 38)%Q.
+Proof. exact zig_norm_equal_area. Qed.
+Print Assumptions C18_zig_norm_equal_area.
+
+(* f[i] is the unnormalised normal density at x[i] up to 2^-54, for all 257 entries *)
+Theorem C18_zig_norm_f_is_pdf : forall i : N, (i <= 256)%N ->
+  (Rabs (Binary.B2R 53 1024 (znth zig_norm_f i) - exp (- (Binary.B2R 53 1024 (znth zig_norm_x i)) ^ 2 / 2))
+   <= bpow radix2 (-54))%R.
+Proof. exact zig_norm_f_is_pdf. Qed.
+Print Assumptions C18_zig_norm_f_is_pdf.
+
+(* ---- the integer -> float conversions are exact ---- *)
+Theorem C18_float_with_exp_value : forall (frac : N) (e : Z), (frac < 2 ^ 52)%N -> (e = 0 \/ e = 1)%Z ->
+  Binary.is_finite 53 1024 (float_with_exp frac e) = true /\
+  (Binary.B2R 53 1024 (float_with_exp frac e)
+   = bpow radix2 e * (1 + IZR (Z.of_N frac) * bpow radix2 (-52)))%R.
+Proof. exact float_with_exp_value. Qed.
+Print Assumptions C18_float_with_exp_value.
+
+Theorem C18_zig_u_sym_exact : forall bits : N, (bits < 2 ^ 64)%N ->
+  Binary.is_finite 53 1024 (zig_u true bits) = true /\
+  (Binary.B2R 53 1024 (zig_u true bits) = IZR (Z.of_N (N.shiftr bits 12)) * bpow radix2 (-51) - 1)%R /\
+  (-1 <= Binary.B2R 53 1024 (zig_u true bits) < 1)%R.
+Proof. exact zig_u_sym_exact. Qed.
+Print Assumptions C18_zig_u_sym_exact.
+
+Theorem C18_zig_u_pos_exact : forall bits : N, (bits < 2 ^ 64)%N ->
+  Binary.is_finite 53 1024 (zig_u false bits) = true /\
+  (Binary.B2R 53 1024 (zig_u false bits)
+   = IZR (Z.of_N (N.shiftr bits 12)) * bpow radix2 (-52) + bpow radix2 (-53))%R /\
+  (0 < Binary.B2R 53 1024 (zig_u false bits) < 1)%R.
+Proof. exact zig_u_pos_exact. Qed.
+Print Assumptions C18_zig_u_pos_exact.
+
+Theorem C18_unif_f64_exact : forall w : N, (w < 2 ^ 64)%N ->
+  Binary.is_finite 53 1024 (unif_f64 w) = true /\
+  (Binary.B2R 53 1024 (unif_f64 w) = IZR (Z.of_N (N.shiftr w 11)) * bpow radix2 (-53))%R /\
+  (0 <= Binary.B2R 53 1024 (unif_f64 w) < 1)%R.
+Proof. exact unif_f64_exact. Qed.
+Print Assumptions C18_unif_f64_exact.
+
+Theorem C18_open01_exact : forall w : N, (w < 2 ^ 64)%N ->
+  Binary.is_finite 53 1024 (open01_f64 w) = true /\
+  (Binary.B2R 53 1024 (open01_f64 w)
+   = IZR (Z.of_N (N.shiftr w 12)) * bpow radix2 (-52) + bpow radix2 (-53))%R /\
+  (0 < Binary.B2R 53 1024 (open01_f64 w) < 1)%R.
+Proof. exact open01_exact. Qed.
+Print Assumptions C18_open01_exact.
+
+(* ---- structure of a draw ---- *)
+(* a value returned by the first test is finite, lies strictly inside the next layer's width and strictly inside
+   (-R, R), and is the correctly rounded product u * x[i] (no overflow) *)
+Theorem C18_zig_fast_sound : forall (bits : N) (x : binary64),
+  zig_fast true zig_norm_x bits = Some x -> (bits < 2 ^ 64)%N ->
+  Binary.is_finite 53 1024 x = true /\
+  (Rabs (Binary.B2R 53 1024 x) < Binary.B2R 53 1024 (znth zig_norm_x (N.land bits 255 + 1)))%R /\
+  (Rabs (Binary.B2R 53 1024 x) < Binary.B2R 53 1024 (zb zig_norm_r))%R /\
+  Binary.B2R 53 1024 x
+  = round radix2 (FLT_exp (3 - 1024 - 53) 53) ZnearestE
+      (Binary.B2R 53 1024 (zig_u true bits) * Binary.B2R 53 1024 (znth zig_norm_x (N.land bits 255)))%R.
+Proof. exact zig_fast_sound. Qed.
+Print Assumptions C18_zig_fast_sound.
+
+(* fast path: exactly one generator word, no oracle value consumed, nothing logged *)
+Theorem C18_std_normal_fast_path : forall (f : nat) (st : zst) (x : binary64),
+  zig_fast true zig_norm_x (fst (next_u64 (z_rng st))) = Some x ->
+  std_normal (S f) st
+  = Some (x, {| z_rng := snd (next_u64 (z_rng st)); z_orc := z_orc st; z_log := z_log st |}).
+Proof. exact std_normal_fast_path. Qed.
+Print Assumptions C18_std_normal_fast_path.
+
+Theorem C18_normals_length : forall (fuel k : nat) (st st' : zst) (xs : list binary64),
+  normals fuel k st = Some (xs, st') -> length xs = k.
+Proof. exact normals_length. Qed.
+Print Assumptions C18_normals_length.
+
+(* draw streams compose: k1 + k2 draws = k1 draws, then k2 draws from the state reached *)
+Theorem C18_normals_prefix : forall (fuel k1 k2 : nat) (st st2 : zst) (xs : list binary64),
+  normals fuel (k1 + k2) st = Some (xs, st2) ->
+  exists st1, normals fuel k1 st = Some (firstn k1 xs, st1) /\ normals fuel k2 st1 = Some (skipn k1 xs, st2).
+Proof. exact normals_prefix. Qed.
+Print Assumptions C18_normals_prefix.
+
+(* a successful init_seeded output is the tag, n*d entries, and the count of oracle values left *)
+Theorem C18_init_seeded_shape : forall (conv : binary64 -> Z) (seed : N) (n d : nat) (orc body : list Z),
+  init_seeded conv seed n d orc = 1%Z :: body -> length body = (n * d + 1)%nat.
+Proof. exact init_seeded_shape. Qed.
+Print Assumptions C18_init_seeded_shape.
+
+(* ---- non-vacuity ---- *)
+(* seed 42: the first word takes the fast path; three draws need no oracle value; a 2 x 2 seeded request;
+   seed 44: the first draw leaves the fast path (no oracle value supplied -> [0]) *)
+Example C18_zig_example :
+  option_map bits_of_b64 (zig_fast true zig_norm_x (fst (next_u64 (seed_from_u64 42)))) = Some 4605690804507365566%Z /\
+  normals_eval 42 3 [] = [1; 4605690804507365566; 13826185630102679779; 4609018660546388191; 0]%Z /\
+  init_seeded64 42 2 2 []
+  = [1; 4605690804507365566; 13826185630102679779; 4609018660546388191; 4602038494877683467; 0]%Z /\
+  normals_eval 44 1 [] = [0]%Z.
+Proof. vm_compute. repeat split. Qed.
+
+(* bits 0 give u = -1.0 exactly *)
+Example C18_zig_u_zero :
+  bits_of_b64 (zig_u true 0) = 13830554455654793216%Z /\ Binary.B2R 53 1024 (zig_u true 0) = (-1)%R.
+Proof.
+  split; [vm_compute; reflexivity|].
+  destruct (zig_u_sym_exact 0 eq_refl) as [_ [H _]]. rewrite H. cbn [N.shiftr Z.of_N]. rewrite Rmult_0_l. apply Rminus_0_l.
+Qed.
